@@ -388,3 +388,13 @@ func WSDials() int                 { return 0 }
 func WSDialURL(i int) string       { return "" }
 func WSDialPeer(i int) interface{} { return nil }
 func WSDialFail(fail bool)         {}
+
+// ASCII reports whether every byte of s is below 0x80 (a pure loop: no forks in
+// the engine).
+func ASCII(s string) bool {
+	ok := true
+	for i := 0; i < len(s); i++ {
+		ok = ok && s[i] < 0x80
+	}
+	return ok
+}
